@@ -25,6 +25,7 @@ import (
 	"strings"
 	"sync"
 	"time"
+	"unicode/utf8"
 
 	"github.com/cockroachdb/errors"
 	"github.com/samber/lo"
@@ -637,6 +638,10 @@ func (e *MetaCDC) getRPCChannelName(channelInfo model.ChannelInfo) string {
 }
 
 func (e *MetaCDC) validCreateRequest(req *request.CreateRequest) error {
+	if !utf8.ValidString(req.TaskID) {
+		// the task id becomes a store key and a metric label
+		return servererror.NewClientError("the task id is not a valid utf-8 string")
+	}
 	milvusConnectParam := req.MilvusConnectParam
 	kafkaConnectParam := req.KafkaConnectParam
 	isMilvusEmpty := milvusConnectParam.URI == "" && milvusConnectParam.Host == "" && milvusConnectParam.Port <= 0
